@@ -41,6 +41,7 @@ def main():
     src = "/tmp/seed-out/" + sid
     tier = "quick"
     name = sid
+    modroot = False  # the demonstration lives in the root module (zz_demo/) instead of v2/zz_demo/
     i = 1
     while i < len(a):
         if a[i] == "--checks":
@@ -51,6 +52,8 @@ def main():
             tier = a[i + 1]; i += 2
         elif a[i] == "--name":
             name = a[i + 1]; i += 2
+        elif a[i] == "--root":
+            modroot = True; i += 1
         else:
             raise SystemExit("bad arg " + a[i])
     patch = os.path.join(src, "patch.diff")
@@ -63,15 +66,16 @@ def main():
     if rc != 0:
         raise SystemExit("worktree: " + out)
     try:
-        demo_dir = os.path.join(wt, "v2", "zz_demo")
+        moddir = wt if modroot else os.path.join(wt, "v2")
+        demo_dir = os.path.join(moddir, "zz_demo")
         if os.path.isdir(os.path.join(src, "zz_demo")):
             shutil.copytree(os.path.join(src, "zz_demo"), demo_dir, dirs_exist_ok=True)
         os.makedirs(demo_dir, exist_ok=True)
         for d in demos:
             shutil.copy(d, demo_dir)
         demo_cmd = "go test -tags verif -vet=off -count=1 ./zz_demo/..."
-        rc0, out0 = sh(demo_cmd, cwd=os.path.join(wt, "v2"))
-        meta["demo_cmd"] = "cd <worktree>/v2 && " + demo_cmd
+        rc0, out0 = sh(demo_cmd, cwd=moddir)
+        meta["demo_cmd"] = "cd <worktree>%s && " % ("" if modroot else "/v2") + demo_cmd
         meta["demo_without_change"] = "PASS" if rc0 == 0 else "FAIL"
         base = suite(wt)
         rc, out = sh("git apply --3way %s || git apply %s" % (patch, patch), cwd=wt)
@@ -79,7 +83,7 @@ def main():
         meta["patch_applies"] = rc == 0
         if rc != 0:
             meta["patch_error"] = out[-2000:]
-        rc1, out1 = sh(demo_cmd, cwd=os.path.join(wt, "v2"))
+        rc1, out1 = sh(demo_cmd, cwd=moddir)
         meta["demo_with_change"] = "PASS" if rc1 == 0 else "FAIL"
         meta["demo_with_change_output"] = out1[-1500:]
         changed = suite(wt)
@@ -114,7 +118,7 @@ def main():
                         results[c] = dict(exit=rc, violations=len(viol), wall_s=round(time.time() - t0, 1), first=first, tail=out.splitlines()[-1] if out.strip() else "")
                 finally:
                     sh("git -C /repo checkout -- .")
-                    sh("git -C /repo clean -fdq -- v2/zz_demo")
+                    sh("git -C /repo clean -fdq -- v2/zz_demo zz_demo")
         meta["checks"] = results
         meta["caught_by"] = [c for c, r in results.items() if isinstance(r, dict) and r.get("exit") == 1]
     finally:
